@@ -26,10 +26,12 @@ type s3Sim struct {
 	ln      net.Listener
 	srv     *http.Server
 	log     []string
+	uploads map[string]map[int][]byte // multipart: upload id -> part number -> bytes
+	nextUp  int
 }
 
 func newS3Sim() (*s3Sim, error) {
-	s := &s3Sim{objects: map[string][]byte{}}
+	s := &s3Sim{objects: map[string][]byte{}, uploads: map[string]map[int][]byte{}}
 	ln, err := net.Listen("tcp", "127.0.0.1:0")
 	if err != nil {
 		return nil, err
@@ -75,6 +77,66 @@ func (s *s3Sim) ServeHTTP(w http.ResponseWriter, r *http.Request) {
 		if r.Method != "HEAD" {
 			fmt.Fprintf(w, `<?xml version="1.0" encoding="UTF-8"?><Error><Code>NoSuchKey</Code><Message>The specified key does not exist.</Message><Key>%s</Key><BucketName>%s</BucketName><Resource>%s</Resource></Error>`, key, parts[0], r.URL.Path)
 		}
+	}
+	q := r.URL.Query()
+	switch {
+	case r.Method == "POST" && q.Has("uploads"): // initiate multipart upload
+		s.mu.Lock()
+		s.nextUp++
+		id := fmt.Sprintf("upload-%d", s.nextUp)
+		s.uploads[id] = map[int][]byte{}
+		s.mu.Unlock()
+		w.Header().Set("Content-Type", "application/xml")
+		fmt.Fprintf(w, `<?xml version="1.0" encoding="UTF-8"?><InitiateMultipartUploadResult><Bucket>%s</Bucket><Key>%s</Key><UploadId>%s</UploadId></InitiateMultipartUploadResult>`, parts[0], key, id)
+		return
+	case r.Method == "PUT" && q.Get("uploadId") != "": // upload part
+		var buf bytes.Buffer
+		io.Copy(&buf, r.Body)
+		n := 0
+		fmt.Sscan(q.Get("partNumber"), &n)
+		s.mu.Lock()
+		up, ok := s.uploads[q.Get("uploadId")]
+		if ok {
+			up[n] = buf.Bytes()
+		}
+		s.mu.Unlock()
+		if !ok {
+			w.WriteHeader(404)
+			return
+		}
+		w.Header().Set("ETag", fmt.Sprintf(`"part%d"`, n))
+		return
+	case r.Method == "POST" && q.Get("uploadId") != "": // complete multipart upload
+		var req struct {
+			Parts []struct {
+				PartNumber int `xml:"PartNumber"`
+			} `xml:"Part"`
+		}
+		xml.NewDecoder(r.Body).Decode(&req)
+		s.mu.Lock()
+		up, ok := s.uploads[q.Get("uploadId")]
+		var whole []byte
+		for _, p := range req.Parts {
+			whole = append(whole, up[p.PartNumber]...)
+		}
+		if ok {
+			s.objects[key] = whole
+			delete(s.uploads, q.Get("uploadId"))
+		}
+		s.mu.Unlock()
+		if !ok {
+			w.WriteHeader(404)
+			return
+		}
+		w.Header().Set("Content-Type", "application/xml")
+		fmt.Fprintf(w, `<?xml version="1.0" encoding="UTF-8"?><CompleteMultipartUploadResult><Location>http://%s/%s/%s</Location><Bucket>%s</Bucket><Key>%s</Key><ETag>"whole"</ETag></CompleteMultipartUploadResult>`, r.Host, parts[0], key, parts[0], key)
+		return
+	case r.Method == "DELETE" && q.Get("uploadId") != "": // abort
+		s.mu.Lock()
+		delete(s.uploads, q.Get("uploadId"))
+		s.mu.Unlock()
+		w.WriteHeader(204)
+		return
 	}
 	switch {
 	case key == "" && r.Method == "GET": // ListObjectsV2
